@@ -14,7 +14,7 @@ Open Scope Z_scope.
 
 (* ---------- representation choices (part of the translation table, DESIGN 2.1) ----------
    float32 / float64  : their IEEE-754 bit pattern as a Z (uint32 / uint64); arithmetic on them is oracle only
-   *big.Float          : an opaque carrier [bigfloat]
+   ptr big.Float       : an opaque carrier [bigfloat]
    time.Time           : the instant, as (unix seconds, nanoseconds within the second)
    time.Duration       : int64 nanoseconds *)
 Definition bigfloat := (Z * Z)%type.
@@ -51,13 +51,13 @@ Record oracles : Type := {
   o_ParseInt      : string -> Z -> Z -> result Z;        (* strconv.ParseInt(s, base, bitSize) *)
   o_FormatInt     : Z -> Z -> string;                    (* strconv.FormatInt(v, base) *)
   o_BigSetString  : string -> Z -> (Z * bool);           (* new(big.Int).SetString(s, base) *)
-  o_BigText       : Z -> Z -> string;                    (* (*big.Int).Text(base) *)
+  o_BigText       : Z -> Z -> string;                    (* big.Int Text(base) *)
   o_f64_to_f32    : Z -> Z;                              (* float32(x) for x float64: IEEE round to nearest even *)
   o_f32_to_f64    : Z -> Z;                              (* float64(x) for x float32: exact *)
   o_f64_eqb       : Z -> Z -> bool;                      (* == on float64 *)
   o_f64_isnan     : Z -> bool;                           (* math.IsNaN *)
-  o_BigFloat_Float64    : bigfloat -> (Z * Z);           (* (*big.Float).Float64() : value bits, accuracy *)
-  o_BigFloat_SetFloat64 : Z -> bigfloat;                 (* (*big.Float).SetFloat64 *)
+  o_BigFloat_Float64    : bigfloat -> (Z * Z);           (* big.Float Float64() : value bits, accuracy *)
+  o_BigFloat_SetFloat64 : Z -> bigfloat;                 (* big.Float SetFloat64 *)
   o_TimeParse     : string -> string -> result gotime;   (* time.Parse / ParseInLocation (layout, value) *)
   o_TimeFormat    : gotime -> string -> string           (* time.Time.Format *)
 }.
